@@ -50,12 +50,15 @@ func (e *Engine) verifyFunc(name string) (*VC, error) {
 	}
 	vc := e.newVC(name, con.Props)
 	vc.verifyingBody = true
+	vc.absQuant = con.Flags["absolute-quantifiers"]
 	if fn.Blocks == nil {
 		return nil, fmt.Errorf("function %s has no body", name)
 	}
 	st := &State{reach: "true", cells: map[*Cell]*Val{}, heaps: map[string]string{}, mdom: map[string]string{}, mval: map[string]string{}, mcard: map[string]string{}}
-	a0 := vc.fresh("alloc0", "Int")
-	vc.assume("(> " + a0 + " 0)")
+	a0 := "alloc0"
+	vc.declareGlobal(a0, "Int")
+	vc.globals = append(vc.globals, "(assert (> alloc0 0))")
+	vc.alloc0 = a0
 	st.alloc = a0
 	st.rh = vc.fresh("RH0", "Int")
 	var params []*Val
